@@ -35,13 +35,23 @@ KINDS = ["pawn", "knight", "bishop", "rook", "queen", "king"]
 
 def jobs(tier, seed):
     t = 7200 if tier == "thorough" else 3000
-    js = [Job("c15_null_step", "accumulators == recomputation preserved by null move; undo restores", timeout=t, mem_gb=24, witness=False)]
+    js = [Job("c15_init_is_sum", "real IncrementalEvalFields::init == sum of the contributions of all men, any reachable material", timeout=t, mem_gb=24, witness=False)]
+    js.append(Job("c15_delta_null", "null move leaves the accumulators alone; take-back restores", timeout=1200, mem_gb=16, witness=False, checks="functional"))
     for kind in range(6):
         for side in (0, 1):
-            name = f"c15_make_step_{KINDS[kind]}_{'wb'[side]}"
-            src = f"#[kani::proof]\n#[kani::unwind(66)]\npub fn {name}() {{ c15::make_step({kind}, {side}); }}\n"
-            js.append(Job(name, f"accumulators == recomputation preserved by any {KINDS[kind]} move ({'white' if side == 0 else 'black'}); undo restores", gen=src,
-                          timeout=t, mem_gb=24, witness=False, params={"moving_kind": KINDS[kind], "white_to_move": side == 0}))
+            name = f"c15_delta_make_{KINDS[kind]}_{'wb'[side]}"
+            src = f"#[kani::proof]\npub fn {name}() {{ c15::delta_make({kind}, {side}); }}\n"
+            js.append(Job(name, f"ANY starting accumulators: any {KINDS[kind]} move ({'white' if side == 0 else 'black'}) changes them by exactly the contributions of the men that "
+                                "appeared/disappeared; undo restores; any material", gen=src, timeout=t, mem_gb=20, weight_gb=4, witness=False,
+                          params={"moving_kind": KINDS[kind], "white_to_move": side == 0}))
+    if tier == "thorough":
+        js.append(Job("c15_null_step", "direct: accumulators == recomputation preserved by null move; undo restores", timeout=t, mem_gb=24, witness=False))
+        for kind in range(6):
+            for side in (0, 1):
+                name = f"c15_make_step_{KINDS[kind]}_{'wb'[side]}"
+                src = f"#[kani::proof]\n#[kani::unwind(66)]\npub fn {name}() {{ c15::make_step({kind}, {side}); }}\n"
+                js.append(Job(name, f"direct: accumulators == recomputation preserved by any {KINDS[kind]} move ({'white' if side == 0 else 'black'}); undo restores", gen=src,
+                              timeout=t, mem_gb=24, witness=False, params={"moving_kind": KINDS[kind], "white_to_move": side == 0}))
     return js
 
 
